@@ -67,6 +67,9 @@ ValM(D, name, var, depth) ==
            ELSE IF big /\ f.label = "repeated" /\ k # "msg" /\ var > 0 THEN
               \* a packed payload of 128 bytes and more: a two-byte length prefix
               <<[tag |-> f.tag, x |-> [k |-> "rep", es |-> [j \in 1..(IF var = 1 THEN 40 ELSE 17) |-> ScalarVal(k, 1 + (j % 2))]]]>>
+           ELSE IF big /\ f.label = "repeated" /\ k = "msg" /\ var = 2 /\ ~deep THEN
+              \* 130 small elements: the element COUNT crosses the one-byte varint boundary, each element stays short
+              <<[tag |-> f.tag, x |-> [k |-> "rep", es |-> [j \in 1..130 |-> [k |-> "msg", fs |-> <<[tag |-> 3, x |-> Leaf("int32", I32(j))]>>]]]]>>
            ELSE IF big /\ k \in {"string", "bytes"} /\ f.label # "map" /\ var > 0 THEN
               <<[tag |-> f.tag, x |-> Leaf(k, BigStr(IF var = 1 THEN 200 ELSE 130))]>>
            ELSE IF f.label = "repeated" THEN
